@@ -666,7 +666,7 @@ def check(pid, tier, seed):
             "obligation": "model extraction / driver build", "detail": derr[-2000:]})
         violations.append((path, " no-failing-input-found"))
 
-    if (mism or not proof["ok"]) and not violations and not (fails and known_lines):
+    if (mism or not proof["ok"]) and not violations:
         # correspondence or a proof obligation broke without a failing input so far: search harder
         found = None
         if ok_h and ok_d and tier == "quick" and cfg.get("search_with_thorough", True):
@@ -680,6 +680,9 @@ def check(pid, tier, seed):
                 mv = run_driver(lines)
                 for l, (m, v) in zip(lines, mv):
                     if is_fail({"verdict": v}):
+                        vcls = v.split(":", 1)[1] if ":" in v else v
+                        if any(vcls == k["class"] or vcls.startswith(k["class"] + ":") for k in known):
+                            continue    # a recorded finding is not what broke
                         cmd, arg, impl = (l.split("\t") + ["", "", ""])[:3]
                         found = {"cmd": cmd, "arg": arg, "impl": impl, "model": m, "verdict": v, "stream": stream}
                         break
@@ -692,7 +695,9 @@ def check(pid, tier, seed):
             except Exception:
                 pass
             report_fail(found, "found by the failing-input search after the correspondence/proof broke")
-        if not violations and not known_lines:
+        if not violations:
+            # (a recorded finding among the failing inputs does not account for a broken obligation or for
+            # cases on which the model and the implementation differ: those are reported all the same)
             body = {}
             if not proof["ok"]:
                 body["obligation"] = "; ".join(proof["problems"])[:3000]
